@@ -29,7 +29,7 @@ RULE = ("real filter objects called directly and through Event.send to a probe b
         "-- exhaustive in both tiers. Delta: all value sequences up to length 3 (quick) / 5 (thorough) "
         "over 8 values x 7 deltas, plus random sequences up to length 40 with dyadic floats and large "
         "ints, non-numeric values and missing keys. DataEdit: all chains up to length 2 (quick) / 3 "
-        "(thorough) over a 63-operation alphabet on keys a,b,c and all chains of length 4 over a "
+        "(thorough) over a 61-operation alphabet on keys a,b,c and all chains of length 4 over a "
         "14-operation alphabet (thorough), each on all 8 input dicts over the key set, plus random "
         "chains up to length 5. Pipelines: all pipelines of <= 2 (quick) / <= 3 (thorough) filters over "
         "a 26-filter alphabet of editing, passing, in-place modifying, rejecting and raising filters x 3 "
@@ -772,7 +772,7 @@ def delta_scenarios(rng, tier):
             seqs = list(itertools.product(DVALS, repeat=n))
             for i in range(0, len(seqs), 64):
                 yield delta_batch(delta, [list(s) for s in seqs[i:i + 64]])
-    for _ in range(300 if tier == 'quick' else 6000):
+    for _ in range(800 if tier == 'quick' else 6000):
         mode = rng.random()
         if mode < 0.45:
             delta = rng.choice([0, 1, 2, 3, 7, 100, 2 ** 33, -5])
@@ -849,10 +849,10 @@ def chain_scenarios(rng, tier):
                 for c in EDIT_SMALL:
                     yield chain_batch([[a, b, c, op] for op in EDIT_SMALL])
     else:
-        for _ in range(60):
+        for _ in range(200):
             a, b = rng.choice(EDIT_OPS), rng.choice(EDIT_OPS)
             yield chain_batch([[a, b, op] for op in EDIT_OPS])
-        for _ in range(40):
+        for _ in range(150):
             a, b, c = (rng.choice(EDIT_SMALL) for _ in range(3))
             yield chain_batch([[a, b, c, op] for op in EDIT_SMALL])
     # random chains with other keys / values, incl. the reserved items
@@ -870,7 +870,7 @@ def chain_scenarios(rng, tier):
         if k in ('del', 'permit'):
             return [k, rng.sample(keys, rng.randint(0, 4))]
         return [k, rng.choice(keys), rng.choice(MODFNS + [['inc', 0.5], ['const', U], ['raise', 'ValueError']])]
-    for _ in range(150 if tier == 'quick' else 3000):
+    for _ in range(400 if tier == 'quick' else 3000):
         chains = [[rop() for _ in range(rng.randint(1, 5))] for _ in range(12)]
         dicts = [{key: rng.choice(vals) for key in rng.sample(keys, rng.randint(0, 5))} for _ in range(6)]
         yield chain_batch(chains, dicts, ctl1=rng.choice([0, 'o', None]))
@@ -930,12 +930,12 @@ def pipe_scenarios(rng, tier):
             for b in PIPE_FILTERS:
                 yield pipe_batch([[a, b, c] for c in PIPE_FILTERS])
     else:
-        for _ in range(120):
+        for _ in range(300):
             a, b = rng.choice(PIPE_FILTERS), rng.choice(PIPE_FILTERS)
             yield pipe_batch([[a, b, c] for c in PIPE_FILTERS], ctl1=rng.choice([1, 0]))
     # sequences of sends through one pipeline holding a Delta (the state survives rejections
     # by later stages and is not touched when an earlier stage stops the event)
-    for _ in range(100 if tier == 'quick' else 2000):
+    for _ in range(300 if tier == 'quick' else 2000):
         pipe = [rng.choice(PIPE_FILTERS) for _ in range(rng.randint(0, 2))]
         pipe.insert(rng.randint(0, len(pipe)), ['delta', rng.choice([1, 2, 1.5])])
         datas = [{'a': rng.choice([0, 1]), 'value': rng.choice([0, 1, 2, 3, 4.5]), 'previous': rng.choice([U, 0, 1])}
@@ -989,7 +989,7 @@ LIVE_FILTERS = [
 
 
 def live_scenarios(rng, tier):
-    for _ in range(250 if tier == 'quick' else 5000):
+    for _ in range(700 if tier == 'quick' else 5000):
         pipe = [rng.choice(LIVE_FILTERS) for _ in range(rng.randint(1, 3))]
         numeric = any(s[0] == 'delta' or s == LIVE_FILTERS[11] for s in pipe) and rng.random() < 0.9
         pool = [0, 1, 2, 3, 4.5, -1, True, False] if numeric else [0, 1, 2, None, '', 'a', True, False, {'T': []}, 2.5]
